@@ -268,7 +268,8 @@ template <class AR> inline std::string ix_op(AR&, const std::vector<std::string>
 // FAM_MIX: per position int / end-k / the four RangeIndex<B,E,int> with B,E in {int, end-k} / __   (ranks 1-2)
 // FAM_INT: int / RangeIndex<int,int,int> / __        FAM_END: end-k / RangeIndex<end-k,end-k,int> / __
 //          (an int k is passed as end-(len-1-k)); rank 6: __ in the last position only
-// FAM_XT : end-k / __ (the other arguments of a call of rank 3..6 with a rich expression)
+// FAM_XT : end-k / __ (the other arguments of a call of rank 3..6 with a rich expression; ranks 4..6: __ in the last
+//          position only)
 enum { FAM_MIX = 0, FAM_INT = 1, FAM_END = 2, FAM_XT = 3 };
 
 typedef internal::RangeIndex<int,int,int> RII;
@@ -326,6 +327,7 @@ template <> struct AllStep<false> {
   template <class AR, int K, int FAM, class XA, bool Used, typename... As> static VBase* go(AR&, const Call&, const XA&, As...) { throw BadOp(); }
 };
 #define NEXT_ALL AllStep<(ArT<AR>::rank < 6 || K + 1 == ArT<AR>::rank)>::template go<AR, K, FAM, XA, Used, As...>(a, c, x, as...)
+#define NEXT_ALL_XT AllStep<(ArT<AR>::rank < 4 || K + 1 == ArT<AR>::rank)>::template go<AR, K, FAM, XA, Used, As...>(a, c, x, as...)
 template <> struct Step<FAM_INT> {
   enum { FAM = FAM_INT };
   template <class AR, int K, class XA, bool Used, typename... As> static VBase* go(AR& a, const Call& c, const XA& x, As... as) {
@@ -352,7 +354,7 @@ template <> struct Step<FAM_XT> {
     TRYX;
     const Arg& t = c.t[K];
     int len = a.dimension(K);
-    if (t.kind == 3) return NEXT_ALL;
+    if (t.kind == 3) return NEXT_ALL_XT;
     if (t.kind == 0) return NEXT(EndX, via_end(t.b, len));
     throw BadOp();
   }
@@ -374,6 +376,7 @@ template <> struct Step<FAM_MIX> {
 };
 #undef NEXT
 #undef NEXT_ALL
+#undef NEXT_ALL_XT
 #undef TRYX
 template <class AR, int Fam> inline VBase* slice_fam(AR& a, const Call& c) {
   return SliceDisp<AR, 0, Fam, NoRich, false, false>::go(a, c, NoRich());
